@@ -575,4 +575,74 @@ example (sched : Nat → Bool) : ∃ s', runSched (machine failingExt false) sch
 
 end Unobservable
 
+/-! ## T03.5 without `Safe`: hypothesis on the initial state
+
+`Safe` is discharged by the invariant theorems of `Lemmas/Good*.lean` (see the section of the same name in
+Proofs/C13.lean for the list of what remains: `ExtLaws`, `ExtGood`, `SizeBounded`, `StackDiscAlong`, and
+`GoodI` of the initial state). -/
+section UnobservableInv
+open Marwood.Vm Marwood.Vm.Concrete Marwood.Lemmas.Sim Marwood.Lemmas.Good Marwood.Proofs.C13
+
+/-- `run_one` preserves the heap invariant of T03.3 **on the machine**: `WFHeap` of the erased heap and the
+    allocatedness of the roots (with the disciplines that make it inductive), for all 16 opcodes -/
+theorem run_one_preserves_wf (ext : ExtOps) (el : ExtLaws ext) (eg : ExtGood ext) (s s' : St CHeap) (b : Bool)
+    (g : GoodI s) (sm : Small s.heap) (sd : StackDisc s) (hs : step (concreteOps ext) s = .ok (s', b))
+    (sm' : Small s'.heap) :
+    GoodI s' ∧ WFHeap true (toHeap s'.heap) ∧ RootsOk (toHeap s'.heap) ((rootsOf s').refs true) :=
+  let g' := good_step el eg g sm sd hs sm'
+  ⟨g', g'.hg.wf, g'.roots⟩
+
+/-- … and so does a collection at any boundary -/
+theorem run_gc_preserves_good (force : Bool) (s : St CHeap) (g : GoodI s) (sm : Small (cgc force s).heap) :
+    GoodI (cgc force s) := good_gc force g sm
+
+/-- **T03.5.** On the concrete machine, from a state satisfying the invariant: every schedule of collections at
+    instruction boundaries and the collection-free run end with the same status (running / HALT / the same
+    failure) in `Sim`-related states. -/
+theorem gc_unobservable (ext : ExtOps) (force : Bool) (o : ExtLaws ext) (eg : ExtGood ext) (sched : Nat → Bool)
+    (n : Nat) (s0 : St CHeap) (g0 : GoodI s0) (sb : SizeBounded (machine ext force) s0)
+    (sd : StackDiscAlong (machine ext force) s0) :
+    ResRel (Lemmas.Sim.R (machine ext force)) (runSched (machine ext force) sched n 0 s0)
+      (pureN (machine ext force) n s0) :=
+  gc_unobservable_partial ext force o sched n s0 (safe_of_good force o eg g0 sb sd)
+
+/-- … and the value is the same -/
+theorem gc_unobservable_value (ext : ExtOps) (force : Bool) (o : ExtLaws ext) (eg : ExtGood ext)
+    (sched : Nat → Bool) (n : Nat) (s0 t' : St CHeap) (g0 : GoodI s0)
+    (sb : SizeBounded (machine ext force) s0) (sd : StackDiscAlong (machine ext force) s0)
+    (hk : pureN (machine ext force) n s0 = .done t') :
+    ∃ s', runSched (machine ext force) sched n 0 s0 = .done s' ∧
+      ∀ fuel, resultObs fuel s' = resultObs fuel t' :=
+  gc_unobservable_value_partial ext force o sched n s0 t' (safe_of_good force o eg g0 sb sd) hk
+
+/-- the hypothesis is one about the VM between evaluations: an idle good machine after `prepare_eval` -/
+theorem gc_unobservable_value_eval (ext : ExtOps) (force : Bool) (o : ExtLaws ext) (eg : ExtGood ext)
+    (comp : CHeap → Vm.VCell → Outcome (CHeap × Vm.VCell)) (cg : CompGood comp)
+    (s : St CHeap) (g : GoodI s) (hacc : s.acc = .undefined) (hep : Heap.Sentinel s.ep)
+    (hst : ∀ c ∈ s.stack.cells, c = Vm.VCell.undefined) (d : Vm.VCell) (hd : addrFree d = true)
+    (s0 : St CHeap) (hp : prepareEval comp s d = .ok s0)
+    (sched : Nat → Bool) (n : Nat) (t' : St CHeap)
+    (sb : SizeBounded (machine ext force) s0) (sd : StackDiscAlong (machine ext force) s0)
+    (hk : pureN (machine ext force) n s0 = .done t') :
+    ∃ s', runSched (machine ext force) sched n 0 s0 = .done s' ∧
+      ∀ fuel, resultObs fuel s' = resultObs fuel t' :=
+  gc_unobservable_value ext force o eg sched n s0 t'
+    (prepare_goodI cg g hacc hep hst hd hp (sb s0 (.refl s0))) sb sd hk
+
+/-! ### non-vacuity (Lemmas/GoodDemo.lean: the program `HALT`) -/
+
+open Marwood.Lemmas.Good.Demo in
+example (sched : Nat → Bool) : ∃ s', runSched (machine failingExt false) sched 1 0 (Demo.sHalt 0) = .done s' ∧
+    ∀ fuel, resultObs fuel s' = resultObs fuel (Demo.sHalt 1) :=
+  gc_unobservable_value failingExt false failingExt_laws failingExt_good sched 1 (Demo.sHalt 0) (Demo.sHalt 1)
+    (sHalt_goodI 0) (sHalt_sizeBounded _) (sHalt_discAlong _) rfl
+
+open Marwood.Lemmas.Good.Demo in
+/-- the invariant is preserved by the one instruction of that program, through the theorem -/
+example : GoodI (Demo.sHalt 1) :=
+  (run_one_preserves_wf failingExt failingExt_laws failingExt_good (Demo.sHalt 0) (Demo.sHalt 1) true
+    (sHalt_goodI 0) (sHalt_small 0) (sHalt_disc 0 (.inl rfl)) rfl (sHalt_small 1)).1
+
+end UnobservableInv
+
 end Marwood.Proofs.C03
